@@ -118,8 +118,8 @@ func c07Fmt(types ...asetypes.DataType) *ParamFmtPackage {
 func HarnessC07_ParamsInt4Varchar() {
 	c07Generic(TDS_PARAMS, c07Fmt(asetypes.INT4, asetypes.VARCHAR), c07N(8, 10))
 }
-func HarnessC07_ParamsIntNText() {
-	c07Generic(TDS_PARAMS, c07Fmt(asetypes.INTN, asetypes.TEXT), c07N(14, 16))
+func HarnessC07_ParamsText() {
+	c07Generic(TDS_PARAMS, c07Fmt(asetypes.TEXT), c07N(16, 18))
 }
 func HarnessC07_ParamsLongBinary() {
 	c07Generic(TDS_PARAMS, c07Fmt(asetypes.LONGBINARY), c07N(7, 9))
